@@ -538,6 +538,10 @@ func (g *G) genC03(p *Plan, paging bool) {
 	c.PageErr = paging && g.chance(0.3)
 	c.Versioned = c.Backend == "mem" && g.chance(0.3)
 	b := c.Buckets[0]
+	if paging && g.chance(0.04) {
+		g.genLargeBucket(p, b)
+		return
+	}
 	keys := g.listKeys(g.n(2, 14), c.IsFS())
 	if len(keys) == 0 {
 		keys = []string{"a"}
@@ -640,6 +644,56 @@ func (g *G) genC03(p *Plan, paging bool) {
 		ops = append(ops, op)
 		if g.chance(0.1) {
 			ops = append(ops, Op{K: "del", B: b, Key: keys[g.rng.Intn(len(keys))]})
+		}
+	}
+	p.Clients = [][]Op{ops}
+	c.Policy = simrt.Policy{Kind: "seq"}
+}
+
+// genLargeBucket: a bucket with more keys than the protocol's page limit of
+// 1000 (a limit that code paths written for "a few dozen keys" never meet):
+// whole pages of 1000, a common prefix that rolls up more than a page worth of
+// keys with visible entries behind it, markers in the middle of the run.
+func (g *G) genLargeBucket(p *Plan, b string) {
+	c := &p.Config
+	c.Versioned = false
+	n := g.pick2(1000, 1001, 1203, 2000, 2001, 2500)
+	var ops []Op
+	small := []string{"a", "bulk-", "bulk0", "z", "z/y"}
+	for _, k := range small {
+		if g.chance(0.7) {
+			ops = append(ops, Op{K: "put", B: b, Key: k, Body: g.body(g.rng.Intn(40))})
+		}
+	}
+	ops = append(ops, Op{K: "bulk", B: b, Max: n})
+	g.rng.Shuffle(len(ops), func(i, j int) { ops[i], ops[j] = ops[j], ops[i] })
+	for i, nl := 0, g.n(3, 7); i < nl; i++ {
+		op := Op{K: "walk", B: b, V2: g.chance(0.5)}
+		switch g.rng.Intn(6) {
+		case 0: // the roll-up of the whole run is one entry, the entries behind it must follow
+			op.Delim = "/"
+			op.Max = g.n(1, 3)
+		case 1:
+			op.Max = g.pick2(0, 700, 999, 1000, 1001, 100000)
+		case 2:
+			op.Prefix = g.pick("bulk/", "bulk/0", "bulk/00", "bulk", "b")
+			op.Max = g.pick2(0, 400, 1000, 1001)
+		case 3:
+			op.HasMk = true
+			op.Marker = fmt.Sprintf("bulk/%05d", g.rng.Intn(n))
+			op.Max = g.pick2(0, 500, 1000, 5000)
+			op.K = g.pick("walk", "list")
+		case 4:
+			op.K = "list"
+			op.Delim = g.pick("", "/")
+		default:
+			op.K = "list"
+			op.Max = g.pick2(1, 999, 1000, 1001, 2147483647)
+			op.Delim = g.pick("", "/")
+		}
+		ops = append(ops, op)
+		if g.chance(0.3) {
+			ops = append(ops, Op{K: "del", B: b, Key: fmt.Sprintf("bulk/%05d", g.rng.Intn(n))})
 		}
 	}
 	p.Clients = [][]Op{ops}
